@@ -487,3 +487,175 @@ def selfcheck_normaliser(seed=0, rounds=40):
             if s.check() != z3.unsat:
                 bad += 1
     return bad
+
+
+# ------------------------------------------------------------------ ring tactic: field identities by normalisation
+def _const_equalities(hyps):
+    """substitutions  c -> term  from hypotheses of the form  c == term  (c an uninterpreted constant not in term)"""
+    subs = {}
+    flat = []
+    stack = list(hyps)
+    while stack:
+        h = stack.pop()
+        if z3.is_and(h):
+            stack.extend(h.children())
+        else:
+            flat.append(h)
+    for h in flat:
+        if not (z3.is_app(h) and h.decl().kind() == z3.Z3_OP_EQ):
+            continue
+        a, b = h.children()
+        for x, y in ((a, b), (b, a)):
+            if z3.is_const(x) and x.decl().kind() == z3.Z3_OP_UNINTERPRETED:
+                if x.get_id() in subs:
+                    break
+                if _occurs(x, y):
+                    continue
+                subs[x.get_id()] = (x, y)
+                break
+    return list(subs.values())
+
+
+def _occurs(c, t):
+    seen = set()
+    stack = [t]
+    while stack:
+        x = stack.pop()
+        if x.get_id() in seen:
+            continue
+        seen.add(x.get_id())
+        if x.eq(c):
+            return True
+        if z3.is_quantifier(x):
+            continue
+        stack.extend(x.children())
+    return False
+
+
+_rat_memo = {}
+
+
+def rational(t):
+    """(numerator, denominator) polynomials of an arithmetic term: a/b + c/d = (ad+cb)/(bd) etc."""
+    t = py_number(t)
+    if not is_sym(t):
+        return polynomial(t), Poly.const(1)
+    key = t.get_id()
+    hit = _rat_memo.get(key)
+    if hit is not None and hit[0].eq(t):
+        return hit[1]
+    r = _rational(t)
+    if len(_rat_memo) > 100000:
+        _rat_memo.clear()
+    _rat_memo[key] = (t, r)
+    return r
+
+
+def _too_big(p):
+    if len(p.terms) > 4000:
+        raise Unsupported("polynomial too large")
+    return p
+
+
+def _rational(t):
+    one = Poly.const(1)
+    if _is_const(t):
+        return Poly.const(_const_val(t)), one
+    k = t.decl().kind()
+    ch = t.children()
+    if k == z3.Z3_OP_ADD or k == z3.Z3_OP_SUB:
+        n, d = rational(ch[0])
+        for c in ch[1:]:
+            n2, d2 = rational(c)
+            sign = 1 if k == z3.Z3_OP_ADD else -1
+            if d.canon() == d2.canon():
+                n = n.add(n2, sign)
+            else:
+                n = _too_big(n.mul(d2).add(n2.mul(d), sign))
+                d = _too_big(d.mul(d2))
+        return n, d
+    if k == z3.Z3_OP_UMINUS:
+        n, d = rational(ch[0])
+        return Poly().add(n, -1), d
+    if k == z3.Z3_OP_MUL:
+        n, d = one, one
+        for c in ch:
+            n2, d2 = rational(c)
+            n, d = _too_big(n.mul(n2)), _too_big(d.mul(d2))
+        return n, d
+    if k == z3.Z3_OP_DIV:
+        n1, d1 = rational(ch[0])
+        n2, d2 = rational(ch[1])
+        return _too_big(n1.mul(d2)), _too_big(d1.mul(n2))
+    if k == z3.Z3_OP_TO_REAL:
+        return rational(ch[0])
+    if k == z3.Z3_OP_POWER and _is_const(ch[1]) and _const_val(ch[1]).denominator == 1 and 0 <= _const_val(ch[1]) <= 8:
+        n, d = one, one
+        bn, bd = rational(ch[0])
+        for _ in range(int(_const_val(ch[1]))):
+            n, d = n.mul(bn), d.mul(bd)
+        return n, d
+    key, term = canonical_atom(t)
+    return Poly.atom(key, term), one
+
+
+def ring_proves(goal, hyps, max_rounds=12) -> bool:
+    """decide an equality (or conjunction of equalities) between real/int terms by rewriting with the constant
+    equalities among the hypotheses and normalising l - r as a polynomial over atoms (x * 1/x cancels: division by
+    zero is outside the defined domain, A2).  Sound for proving; says nothing when it fails."""
+    goals = [goal]
+    if z3.is_and(goal):
+        goals = list(goal.children())
+    for g in goals:
+        if not (z3.is_app(g) and g.decl().kind() == z3.Z3_OP_EQ):
+            return False
+        l, r = g.children()
+        if z3.is_bool(l):
+            return False
+    subs = _const_equalities(hyps)
+    for g in goals:
+        l, r = g.children()
+        t = to_real(l) - to_real(r)
+        for _ in range(max_rounds):
+            t2 = z3.substitute(t, *subs) if subs else t
+            if t2.eq(t):
+                break
+            t = t2
+        t = z3.simplify(t)
+        conds = _ite_conditions(t)
+        if len(conds) > 8:
+            return False
+        import itertools
+        for assign in itertools.product((True, False), repeat=len(conds)):
+            # exhaustive case split over the truth values of the if-conditions (infeasible combinations included)
+            tt = t
+            if conds:
+                tt = z3.simplify(z3.substitute(t, *[(c, z3.BoolVal(v)) for c, v in zip(conds, assign)]))
+                if _ite_conditions(tt):
+                    return False
+            try:
+                num, den = rational(tt)
+            except Unsupported:
+                return False
+            if num.terms:   # l - r = num/den with num the zero polynomial  <=>  l = r wherever defined (A2)
+                return False
+    return True
+
+
+def _ite_conditions(t):
+    out = []
+    seen = set()
+    stack = [t]
+    while stack:
+        x = stack.pop()
+        if x.get_id() in seen:
+            continue
+        seen.add(x.get_id())
+        if z3.is_quantifier(x):
+            continue
+        if z3.is_app(x) and x.decl().kind() == z3.Z3_OP_ITE:
+            c = x.children()[0]
+            if not any(c.eq(o) for o in out):
+                out.append(c)
+        stack.extend(x.children())
+    return out
